@@ -341,8 +341,15 @@ public:
   /// \brief Begin an outbound connection (async); result via onConnect.
   ConnectResult connect(const std::string &host, std::uint16_t port, TlsMode tls) override
   {
+    return connect(host, port, tls, std::string());
+  }
+
+  /// \brief connect() to an address on behalf of \p tlsServerName (SNI + certificate name check).
+  ConnectResult connect(const std::string &host, std::uint16_t port, TlsMode tls,
+                        const std::string &tlsServerName) override
+  {
     SessionId sid = _nextSessionId++;
-    ConnectReq cr{sid, host, port, tls};
+    ConnectReq cr{sid, host, port, tls, tlsServerName};
     // Surface the closed-queue reject (DD-5): if the transport is tearing down,
     // enqueue() returns false and the connect command is dropped — returning
     // ok(sid) here would promise a connection that will never complete or fire
@@ -719,6 +726,7 @@ private:
     std::string host;
     std::uint16_t port{};
     TlsMode tls{TlsMode::None};
+    std::string tlsName; ///< name the peer certificate must be issued for (empty: host)
   };
 
   struct SendReq
@@ -1700,18 +1708,20 @@ private:
       }
       ::SSL_set_fd(s->ssl, cfd);
       {
-        // A connection made to a host name: send it as SNI and, when the peer is
-        // verified, require the certificate to be issued for that name.
+        // A connection made to a host name (or to an address on behalf of one):
+        // send it as SNI and, when the peer is verified, require the certificate
+        // to be issued for that name.
+        const std::string &name = cr.tlsName.empty() ? cr.host : cr.tlsName;
         in_addr a4{};
         in6_addr a6{};
-        const bool isLiteral = ::inet_pton(AF_INET, cr.host.c_str(), &a4) == 1 ||
-                               ::inet_pton(AF_INET6, cr.host.c_str(), &a6) == 1;
-        if (!isLiteral && !cr.host.empty())
+        const bool isLiteral = ::inet_pton(AF_INET, name.c_str(), &a4) == 1 ||
+                               ::inet_pton(AF_INET6, name.c_str(), &a6) == 1;
+        if (!isLiteral && !name.empty())
         {
-          ::SSL_set_tlsext_host_name(s->ssl, cr.host.c_str());
+          ::SSL_set_tlsext_host_name(s->ssl, name.c_str());
           if (_config.clientTls.verifyPeer)
           {
-            ::SSL_set1_host(s->ssl, cr.host.c_str());
+            ::SSL_set1_host(s->ssl, name.c_str());
           }
         }
       }
